@@ -173,7 +173,7 @@ def run_lines(binary, lines, timeout=3600, restart=True, env=None, limit_as=None
             import resource
             def pre():
                 resource.setrlimit(resource.RLIMIT_AS, (limit_as, limit_as))
-        p = subprocess.run([binary], input="\n".join(chunk) + "\n", stdout=subprocess.PIPE, stderr=subprocess.DEVNULL,
+        p = subprocess.run([binary], input="\n".join(chunk) + "\n", stdout=subprocess.PIPE, stderr=subprocess.PIPE,
                            text=True, timeout=timeout, env=env, preexec_fn=pre)
         got = p.stdout.split("\n")
         if got and got[-1] == "":
@@ -185,7 +185,8 @@ def run_lines(binary, lines, timeout=3600, restart=True, env=None, limit_as=None
             if not restart:
                 replies.extend(["abort noreply"] * (n - pos))
                 break
-            replies.append(f"abort signal rc={p.returncode}")
+            why = "_".join((p.stderr or "").strip().split("\n")[-1].split())[:100]
+            replies.append(f"abort signal rc={p.returncode} {why}")
             pos += 1
     return replies
 
